@@ -691,3 +691,50 @@ pub fn validate(a: &[u128]) -> Vec<u128> {
 
 #[allow(unused)]
 fn _u(_: ChunkRanges) {}
+
+
+/// agree_enc: args as `encode` (the encoder field is ignored) -> the five encoders' observations concatenated
+pub fn agree_enc(a: &[u128]) -> Vec<u128> {
+    let mut o = Vec::new();
+    for e in 0..5u128 {
+        let mut b = a.to_vec();
+        b[4] = e;
+        let r = match std::panic::catch_unwind(std::panic::AssertUnwindSafe(|| encode(&b))) {
+            Ok(v) => v,
+            Err(_) => vec![crate::PANIC, 0, 0, 0, 0],
+        };
+        o.extend(r);
+    }
+    o
+}
+
+/// agree_dec: args as `decode` (driver field ignored) -> per driver 0..3: [len, obs...]
+pub fn agree_dec(a: &[u128]) -> Vec<u128> {
+    let mut o = Vec::new();
+    for d in 0..4u128 {
+        let mut b = a.to_vec();
+        b[5] = d;
+        let r = match std::panic::catch_unwind(std::panic::AssertUnwindSafe(|| decode(&b))) {
+            Ok(v) => v,
+            Err(_) => vec![crate::PANIC],
+        };
+        o.push(r.len() as u128);
+        o.extend(r);
+    }
+    o
+}
+
+/// agree_ob: args [kind, seed, size, bs] -> all 15 creation entry points' observations concatenated
+pub fn agree_ob(a: &[u128]) -> Vec<u128> {
+    let mut o = Vec::new();
+    for e in 0..15u128 {
+        let mut b = a.to_vec();
+        b.push(e);
+        let r = match std::panic::catch_unwind(std::panic::AssertUnwindSafe(|| outboard(&b))) {
+            Ok(v) => v,
+            Err(_) => vec![crate::PANIC, 0, 0, 0, 0, 0, 0],
+        };
+        o.extend(r);
+    }
+    o
+}
